@@ -12,6 +12,7 @@ type Subst struct {
 	VarVal *Poly
 	IBind  map[*IAtom]*Term // optional: integer atoms replaced by terms (bindings of symbolic integers)
 	PBind  map[*PAtom]*Term // optional: free boolean symbols replaced by 0/1 terms (renaming)
+	Assume map[*PAtom]bool  // optional: several atoms fixed at once (all the assumptions of a path in one pass)
 	Chains bool             // also rebuild borrow-chain difference words (renaming)
 	tm     map[*Term]*Term
 	pm     map[*Poly]*Poly
@@ -31,6 +32,7 @@ func (s *Subst) Term(t *Term) *Term {
 		return r
 	}
 	out := TInt(0)
+	tickN(len(t.mons))
 	for _, m := range t.mons {
 		q := TConst(m.c)
 		for _, p := range m.preds {
@@ -61,6 +63,21 @@ func (s *Subst) patom(p *PAtom) *Term {
 		s.am[p] = b
 		return b
 	}
+	if v, ok := s.Assume[p]; ok {
+		r = boolTerm(v)
+		s.am[p] = r
+		return r
+	}
+	defer func() {
+		// an atom that, rebuilt from its substituted arguments, is itself one of the fixed atoms
+		if r != nil && len(s.Assume) > 0 {
+			if pa := r.SinglePred(); pa != nil {
+				if v, ok := s.Assume[pa]; ok {
+					s.am[p] = boolTerm(v)
+				}
+			}
+		}
+	}()
 	switch p.Kind {
 	case PLT:
 		r = LT(s.Term(p.A), s.Term(p.B))
@@ -129,7 +146,9 @@ func (s *Subst) Poly(p *Poly) *Poly {
 		return r
 	}
 	out := newPoly(p.F)
+	tickN(len(p.mons))
 	for _, m := range p.mons {
+		tickN(1 + out.NumTerms()/64)
 		q := PolyConst(p.F, m.c)
 		for _, x := range m.vars {
 			var b *Poly
@@ -149,7 +168,9 @@ func (s *Subst) Poly(p *Poly) *Poly {
 			}
 			q = q.Mul(b)
 		}
-		out = out.Add(q)
+		for _, qm := range q.mons {
+			out.addMon(qm.c, qm.vars)
+		}
 	}
 	s.pm[p] = out
 	return out
